@@ -39,7 +39,7 @@ def emit(pid, header, imports, items, extra=""):
     out.append(extra)
     open(os.path.join(ROOT, "coq/theories/Properties/%s.v" % pid), "w").write("\n".join(out))
 
-IMP = "From Sfs Require Import Index ArrayM Scalar Spectrum Project Create SampleParse Npy Text Container IndexP ArrayP BinomP ProjectP CreateP CreateSpecP SampleParseP SampleParseGenP ContainerP SampleFieldP.\nFrom Coq Require Import Permutation.\nClose Scope string_scope."
+IMP = "From Sfs Require Import Index ArrayM Scalar Spectrum Project Create SampleParse Npy Text Container IndexP ArrayP BinomP ProjectP CreateP CreateSpecP SampleParseP SampleParseGenP ContainerP SampleFieldP Frames FramesP.\nFrom Coq Require Import Permutation.\nClose Scope string_scope."
 
 emit("C08", "(* Property C08 - genotype -> allele-count classification is total and exact. Statements + exact + Print Assumptions. *)", IMP, [
  ("called_iff", "CreateP", "classify_called_iff", "a diploid genotype contributes a+b exactly when both alleles are 0 or 1 (phasing is not even an input)"),
@@ -117,6 +117,8 @@ emit("C10", "(* Property C10 - every record is counted once or reported skipped;
  ("summary_iff_skipped", "CreateP", "summary_iff_skipped", "the skipped-sites summary appears iff something was skipped, with the right counts"),
  ("ploidy_error_no_output", "CreateP", "ploidy_aborts_run", "ploidy error at any position: error names the record, no spectrum"),
  ("read_error_no_output", "CreateP", "ioerr_aborts_run", "a corrupt record at any position: error, no spectrum"),
+ ("bcf_stream_cut_inside_a_record_is_corrupt", "FramesP", "read_frames_cut_inside", "the record framing of the (repaired) BCF reader: a stream cut anywhere but between two records is an error - it never reads as a shorter list of records"),
+ ("bcf_stream_cut_between_records", "FramesP", "read_frames_cut_at_boundary", "... and cut between two records it is the records before the cut"),
 ])
 
 emit("C01", "(* Property C01 - create counts every complete site once at its per-population ALT index. *)", IMP, [
@@ -286,7 +288,10 @@ emit_s("C18", "(* Property C18 - results do not depend on how the byte stream is
  ("npy_write_failure_surfaces", "StreamP", "write_npy_fault", "... and fails when the sink fails at any offset"),
  ("detection_schedule_free", "DetectP", "detect_sched_free", "compression/format detection of call-set streams (as repaired) sees the same prefix for every chunk schedule, including a first chunk of one byte"),
  ("first_chunk_detection_was_schedule_dependent", "StreamP", "detect_short_first_chunk_refuted", "refutation kept on record: detection from ONE fill_buf (the unrepaired code) depends on the first chunk"),
-], "From Sfs Require Import Index Npy Text Stream NpyP StreamP DetectP.\nClose Scope string_scope. Open Scope N_scope.")
+ ("bcf_records_read_back", "FramesP", "read_frames_frames_bytes", "the record framing of the (repaired) BCF reader: a stream of records is read back as those records"),
+ ("bcf_partial_stream_is_error", "FramesP", "read_frames_cut_inside", "... and a stream that stops anywhere but between two records (the source failed or was cut short) is an error, never fewer records (F24)"),
+ ("bcf_record_boundaries", "FramesP", "boundaries_spec", "the positions between records are the lengths of the streams of the first k records"),
+], "From Sfs Require Import Index Npy Text Stream Frames NpyP StreamP DetectP FramesP.\nClose Scope string_scope. Open Scope N_scope.")
 
 emit_s("C12", "(* Property C12 - output depends only on call data, not container, transport, threads or run (partial: the\n   decoding of VCF/BCF/BGZF by noodles, its worker threads and inflate are exercised, not modelled). What is proved:\n   container detection sees the same 64 KiB prefix for every way the transport chunks the stream and follows from the\n   magic numbers alone; the shape and population ids are functions of the sample list only (no hash-iteration order\n   enters: the model of population_sizes uses point lookups only, as the code does); the modelled pipeline takes the\n   decoded call set as its only input. *)", [
  ("detection_transport_free", "DetectP", "detect_sched_free", "container detection is independent of how the transport chunks the stream"),
